@@ -103,6 +103,9 @@ type jcase struct {
 	NewE     []aelem `json:"new,omitempty"`
 	Cur      []aelem `json:"cur,omitempty"`
 	Slot     int     `json:"slot,omitempty"` // elements: which annotation block the case uses
+	Hist     int     `json:"hist,omitempty"` // number of the multi-step history the case belongs to
+	InProc   string  `json:"inproc,omitempty"` // package-level operation run in process (see runInProc)
+	Args     []int   `json:"args,omitempty"`
 	preDone  bool    // the Pre steps already ran as earlier cases of this run (they run again on replay)
 }
 
@@ -113,7 +116,8 @@ const (
 )
 
 var famNames = map[int]string{1: "stream", 2: "sparse", 3: "index", 4: "indices", 5: "mappings", 6: "annotation",
-	7: "roi", 8: "keyvalue", 9: "neuronjson", 10: "url", 11: "raw", 12: "follow-up", 13: "annotation-tag-swap"}
+	7: "roi", 8: "keyvalue", 9: "neuronjson", 10: "url", 11: "raw", 12: "follow-up", 13: "annotation-tag-swap",
+	14: "package-level", 15: "labelmap-mutation", 16: "json-type-confusion", 17: "block-shape"}
 
 var bases [][]byte
 var baseNames []string
@@ -233,6 +237,8 @@ type server struct {
 	starts   int
 	deaths   int
 	panics   int // "Panic detected" reports seen on the child's stderr
+	light      bool
+	lightCount int
 }
 
 var srv server
@@ -292,6 +298,9 @@ func (s *server) start() {
 	must(step{"POST", "/roi/roi", []byte(`[[1,1,1,3],[1,2,1,3]]`)})
 	must(step{"POST", "/kv/key/a", []byte("hello")})
 	must(step{"POST", "/img/raw/0_1_2/16_16_16/0_0_0", bytes.Repeat([]byte{7}, 16*16*16)})
+	// labelmap with down-resolution levels (POST blocks?downres=true) and one for mutation histories
+	inst("labelmap", "lmd", map[string]string{"BlockSize": "16,16,16", "MaxDownresLevel": "2"})
+	inst("labelmap", "lmm", map[string]string{"BlockSize": "16,16,16"})
 	inst("annotation", "anns", nil) // annotations synced with the labels of lm2
 	must(step{"POST", "/anns/sync", []byte(`{"sync":"lm2"}`)})
 	must(step{"POST", "/ann/elements", elemsJSON(el(5, 5, 5, "Note", "seed"))})
@@ -416,6 +425,12 @@ func (s *server) runScript(pre []step, main step, probe *step) result {
 		s.c.Kill()
 		return r
 	}
+	// (quick tier: after a hostile URL or type-confused JSON body that was answered 4xx the
+	// untouched data is re-read every fourth time only; a change still shows at the next re-read)
+	s.lightCount++
+	if s.light && o.Class == "4xx" && s.lightCount%4 != 0 {
+		return r
+	}
 	r.sentinel = s.readSentinel() == s.sentinel
 	if s.c.Dead() {
 		r.obs = obsCode("dead")
@@ -425,13 +440,23 @@ func (s *server) runScript(pre []step, main step, probe *step) result {
 }
 
 var slowRequests []string
+var thoroughTier bool
 
 // server generation (number of starts) on which the current multi-step history began
 var historyEpoch int
 
 var obsNames = []string{"2xx", "4xx", "5xx-panic", "5xx", "dead", "hang", "no-answer-but-alive", "throttle-slot-kept"}
 
+// histories in which a step killed or wedged the server: their later steps are skipped (each
+// would have to replay the wedging step first)
+var brokenHistories = map[int]bool{}
+
 func addReq(run *lib.Run, c jcase) {
+	if c.preDone && brokenHistories[c.Hist] {
+		run.Count("skipped:later-steps-of-a-history-that-wedged-or-killed-the-server")
+		return
+	}
+	srv.light = !thoroughTier && (c.Fam == 10 || c.Fam == 16)
 	pre := c.Pre
 	if c.preDone && srv.c != nil && !srv.c.Dead() && srv.starts == historyEpoch {
 		pre = nil // the history's earlier steps ran as the preceding cases, on this very server
@@ -453,7 +478,14 @@ func addReq(run *lib.Run, c jcase) {
 		run.Notes = append(run.Notes, fmt.Sprintf("%s: %s %s: %s %d sentinel=%v named=%v: %q", c.Name, c.Main.Method, c.Main.URL, obsNames[r.obs], r.status, r.sentinel, r.named, r.body))
 	}
 	c.Kind = "req"
-	run.Add("req-"+famNames[c.Fam], fmt.Sprintf("CReq %d %d %d %s %s", c.Fam, c.Expect, r.obs, lib.CoqBool(r.sentinel), lib.CoqBool(r.named)), c,
+	term := fmt.Sprintf("CReq %d %d %d %s %s", c.Fam, c.Expect, r.obs, lib.CoqBool(r.sentinel), lib.CoqBool(r.named))
+	if r.sentinel && r.named {
+		term = fmt.Sprintf("R %d %d %d", c.Fam, c.Expect, r.obs)
+	}
+	if c.preDone && r.obs >= 4 {
+		brokenHistories[c.Hist] = true
+	}
+	run.Add("req-"+famNames[c.Fam], term, c,
 		fmt.Sprintf("req/%s/%s/%x", c.Main.Method, c.Main.URL, sha1.Sum(c.Main.Body)))
 }
 
@@ -540,6 +572,7 @@ func main() {
 	rng := lib.NewRand(o.Seed)
 	run := lib.NewRun("C20", o)
 	dv.Quiet() // the in-process part logs through DVID's logger too
+	thoroughTier = o.Thorough()
 
 	// base payloads
 	sb := sampleBlocks()
@@ -592,6 +625,8 @@ func main() {
 			addBlockReq(run, c)
 		case "elements":
 			addElements(run, c)
+		case "inproc":
+			addInProc(run, c)
 		default:
 			addReq(run, c)
 		}
@@ -725,6 +760,19 @@ func main() {
 	for _, c := range annotationHistories(rng, o.Thorough()) {
 		addReq(run, c)
 	}
+	for _, c := range blockShapeCases(rng, o.Thorough()) {
+		if c.InProc != "" {
+			addInProc(run, c)
+		} else {
+			addReq(run, c)
+		}
+	}
+	for _, c := range labelmapHistories(rng, o.Thorough()) {
+		addReq(run, c)
+	}
+	for _, c := range typeConfusionCases(rng, o.Thorough()) {
+		addReq(run, c)
+	}
 
 	finish("package level: every truncation, hostile values in every header / count / index field, byte substitutions in the packed values and random bit flips of five valid 16^3 blocks (solid, 2, 3, 5 labels, with background) + the Coq witnesses, each through UnmarshalBinary(+Validate), MakeLabelVolume, CalcNumLabels, GetPointLabels; truncations and count inflation of sparse volumes through ReadRLEs. End to end in a child process under ulimit -v: valid and mutated payloads for POST blocks / ingest-supervoxels / raw / split-supervoxel / index / indices / mappings / elements / annotation blocks / roi / keyvalue / neuronjson and hostile URLs; status class, process death, hang (10 s), sentinel re-read after every request, named data re-read after every 4xx. distinct = distinct (payload, mutation) or (method, url, body)")
 }
@@ -757,3 +805,13 @@ func witnessBlocks() map[string][]byte {
 }
 
 var _ = pb.Marshal
+
+// addInProc: a package-level operation on blocks (no server): ok -> 2xx, error -> 4xx, panic -> 5xx-panic.
+func addInProc(run *lib.Run, c jcase) {
+	cls := runInProc(c.InProc, c.Args)
+	obs := map[string]int{"ok": 0, "err": 1, "panic": 2}[cls]
+	run.Count("inproc:" + c.InProc + ":" + cls)
+	c.Kind = "inproc"
+	c.Fam, c.Expect = 14, eUnk
+	run.Add("inproc-"+c.InProc, fmt.Sprintf("R 14 %d %d", eUnk, obs), c, fmt.Sprintf("inproc/%s/%v", c.InProc, c.Args))
+}
